@@ -53,14 +53,14 @@ class Prog:
         return self.sourcefile.to_fortran()
 
 
-def _interpret(sem, prog, sizes, include_locals, unwind, int_bound):
+def _interpret(sem, prog, sizes, include_locals, unwind, int_bound, intents=None):
     it = Interp(sem, prog.routines, prog.modules, sizes, unwind=unwind)
     it.int_bound = int_bound
     fr = it.run_entry(prog.entry, absent=prog.absent)
     for m in prog.modules:
         it.frame = fr
         it.module_frame(m)      # every module's variables are observable, whether touched or not
-    obs = observable(it, fr, prog.entry, include_locals)
+    obs = observable(it, fr, prog.entry, include_locals, intents)
     return it, fr, obs
 
 
@@ -109,8 +109,9 @@ def check_equiv(p1, p2, sizes, include_locals=(), unwind=5, int_bound=6, timeout
         sem = Sem(real_mode, int_mode=int_mode, width=width)
         it1, fr1, obs1 = _interpret(sem, p1, sizes, include_locals, unwind, int_bound)
         n1 = len(sem.defined)
+        intents = {a.name.lower(): a.type.intent for a in p1.entry.arguments}
         try:
-            it2, fr2, obs2 = _interpret(sem, p2, sizes, include_locals, unwind, int_bound)
+            it2, fr2, obs2 = _interpret(sem, p2, sizes, include_locals, unwind, int_bound, intents)
         except NotEncoded as ex:
             if any(k in str(ex) for k in ('unbound variable', 'missing actual for', 'more actual than dummy')):
                 raise _UnboundInTransformed(str(ex)) from ex
@@ -279,15 +280,19 @@ def replay_equiv(p1, p2, sizes, model, timeout=120):
     """compile original and transformed program with gfortran, run both on the model inputs, compare printed outputs.
     returns (differs: bool|None, message)"""
     outs = []
+    # the driver is derived from the ORIGINAL entry's interface (a transformation must keep the entry callable the
+    # same way; its symbol table may have lost attributes such as intents or kinds)
+    try:
+        decl, init, args, out = driver_source(p1.entry, sizes, model or {}, 'orig', p1.absent)
+    except NotEncoded as ex:
+        return None, f'no replay driver: {ex}'
     for tag, p in (('orig', p1), ('trans', p2)):
-        try:
-            decl, init, args, out = driver_source(p.entry, sizes, model or {}, tag, p.absent)
-        except NotEncoded as ex:
-            return None, f'no replay driver: {ex}'
         uses = ''.join(f'  use {m.name}\n' for m in p.modules)
         is_fn = getattr(p.entry, 'is_function', False)
         inmod = getattr(p.entry, 'parent', None) is not None
-        body = p.fortran()
+        # gfortran rejects CONTIGUOUS on explicit-shape dummies (emitted by the stack allocators for nvfortran); the
+        # attribute carries no behaviour, so it is dropped for the replay build only
+        body = p.fortran().replace(', CONTIGUOUS', '')
         lines = ['program rp', uses.rstrip('\n') if uses else '', '  implicit none']
         lines += decl
         if is_fn:
